@@ -3,10 +3,8 @@
 package c17
 
 import (
-	"bytes"
 	"context"
 	"fmt"
-	"runtime"
 	"strconv"
 	"strings"
 	"sync"
@@ -359,128 +357,32 @@ func free(t *testing.T, rng *emit.Rand, batch int, withDeleter bool) (string, ma
 	return term, descr, nobs
 }
 
-// gatedDelete: a tail-side DeleteRange is parked at each of its datastore operations; at one of the
-// parks a writer's Append is flushed completely; a reader observes at every park.
-func gatedDelete(t *testing.T, rng *emit.Rand, batch int) (string, map[string]any, int) {
-	var term string
-	var nobs int
-	descr := map[string]any{}
-	synctest.Test(t, func(t *testing.T) {
-		e := setup(t, batch)
-		ctx := context.Background()
-		k := uint64(5 + rng.Intn(5))
-		var init []uint64
-		for n := uint64(1); n <= k; n++ {
-			init = append(init, n)
-		}
-		_ = e.s.Append(ctx, e.hdrs(init)...)
-		_ = e.s.Sync(ctx)
-		synctest.Wait()
-		to := uint64(2 + rng.Intn(int(k)-1))
-		if rng.Chance(35) {
-			to = k // delete everything below the head
-		}
-		app := []uint64{k + 1, k + 2}
-		var mu sync.Mutex
-		armed, parked := false, false
-		gate := make(chan struct{})
-		hook := func() {
-			// only the deleter is gated: DeleteRange's own Sync makes the flush goroutine run too
-			buf := make([]byte, 8192)
-			if n := runtime.Stack(buf, false); bytes.Contains(buf[:n], []byte("flushLoop")) {
-				return
-			}
-			mu.Lock()
-			if !armed {
-				mu.Unlock()
-				return
-			}
-			parked = true
-			mu.Unlock()
-			<-gate
-		}
-		e.ds.OnWrite = hook
-		e.ds.OnGet = func(key string, found bool) {
-			if !found && isHeightKey(key) {
-				hook()
-			}
-		}
-		expected := int(2*(to-1)) + 3
-		at := rng.Intn(expected + 1)
-		if rng.Chance(60) {
-			at = expected - rng.Intn(4) // the pointer-update phase at the end
-		}
-		delDone := make(chan error, 1)
-		mu.Lock()
-		armed = true
-		mu.Unlock()
-		go func() { delDone <- e.s.DeleteRange(ctx, 1, to) }()
-		var obs []string
-		appended := false
-		for i := 0; ; i++ {
-			synctest.Wait()
-			mu.Lock()
-			p := parked
-			mu.Unlock()
-			if !p {
-				break
-			}
-			obs = append(obs, e.observe())
-			if i == at && !appended {
-				appended = true
-				mu.Lock()
-				armed = false
-				mu.Unlock()
-				_ = e.s.Append(ctx, e.hdrs(app)...)
-				_ = e.s.Sync(ctx)
-				synctest.Wait()
-				obs = append(obs, e.observe())
-				mu.Lock()
-				armed = true
-				mu.Unlock()
-			}
-			mu.Lock()
-			parked = false
-			mu.Unlock()
-			gate <- struct{}{}
-		}
-		derr := <-delDone
-		mu.Lock()
-		armed = false
-		mu.Unlock()
-		e.ds.OnWrite, e.ds.OnGet = nil, nil
-		obs = append(obs, e.observe())
-		if !appended {
-			_ = e.s.Append(ctx, e.hdrs(app)...)
-		}
-		_ = e.s.Sync(ctx)
-		synctest.Wait()
-		obs = append(obs, e.observe())
-		final := storeh.ProbeOf(e.s, e.chain, e.reg, U)
-		_ = e.s.Stop(ctx)
-		nobs = len(obs)
-		term = fmt.Sprintf("Case17 3 %d %s %s %s [] %s [] %s", batch, e.chainTerms(), heights(init), emit.List([]string{heights(app)}),
-			emit.List([]string{emit.List(obs)}), final)
-		descr["mode"], descr["init"], descr["delete_to"], descr["append_at_park"], descr["batch"], descr["delete_err"] = "gated-delete", len(init), to, at, batch, fmt.Sprint(derr)
-	})
-	return term, descr, nobs
-}
-
 func TestC17(t *testing.T) {
 	rng := emit.NewRand(emit.Seed())
-	w := emit.NewWriter("Model.Store Model.StoreSpec Model.StoreConc Oracle.StoreCase Oracle.C17", "case17", "chk17")
+	w := emit.NewWriter("Model.Store Model.StoreSpec Model.StoreConc Model.StoreDelConc Oracle.StoreCase Oracle.C17Del Oracle.C17", "xcase17", "chk17x")
 	w.PerShard(40)
 	w.Rule = "mode 0: gate-controlled schedules — each queued batch's flush is parked at its datastore calls (advanceHead lookup, recedeTail lookup, " +
 		"batch commit) and a reader observes Head/Height/GetByHeight(head)/Get(head hash) at every park, compared with the model's micro-states; " +
 		"mode 1: 2-4 free writer goroutines + 1-2 polling readers in virtual time, final state compared with the sequential model/spec; " +
 		"mode 2: mode 1 plus a tail-side DeleteRange racing the appends (oracle only: monotone observations, gap-free final chain); " +
-		"mode 3: a tail-side DeleteRange(1,to) parked at each of its datastore operations (deletes, pointer writes, lookup misses) with a reader observing at " +
-		"every park and one Append flushed completely at a chosen park (oracle only: Head/Height never decrease, final chain gap-free, deleted heights gone). " +
+		"mode race (D17 cases): a tail-side DeleteRange(Tail,to) parked at each of its datastore writes and inside its OnDelete handler, racing 1-4 Appends whose " +
+		"flush is parked in advanceHead's / recedeTail's last lookup and before its batch commit (plain and context-aware datastore, batch sizes 1..64, gaps and repeats " +
+		"in the appended heights); after every release a reader observes Head/Height/Tail, GetByHeight+Get of every height of [to,Head] and the raw head/tail keys; " +
+		"the model (Model/StoreDelConc.v) runs the same script and must reproduce every observation, the final probe, the persisted pointers and the probe after a reopen; " +
+		"the oracle wants monotone Head/Height, a readable chain [to,Head] at every observation and final = reopen = specification (delete, then the appends). " +
+		"The first six cases are scripted: the schedules of the fixed findings F27/F28 (an actor has to wait for ptrMu, detected by a bounded spin) and DeleteRange(Tail, Head) " +
+		"with an Append taken in between setTail's two pointer writes, each on both datastore flavours. " +
 		"Writers check after every Sync that all they appended is readable. " +
 		"distinct by (mode, batch, init, queue); non-trivial when a reader observed at least 3 states"
 	n := 120
 	if emit.Thorough() {
 		n = 2500
+	}
+	for _, sc := range witnesses() {
+		term, d, nobs := runRace(t, rng, sc)
+		w.Add(term, d, fmt.Sprint(d), nobs >= 3)
+		w.Count("mode", "race")
+		w.Count("race-scenario", sc.name)
 	}
 	for i := 0; i < n; i++ {
 		batch := []int{1, 2, 3, 5, 64}[rng.Intn(5)]
@@ -495,7 +397,14 @@ func TestC17(t *testing.T) {
 		case i%6 == 3:
 			term, d, nobs = free(t, rng, batch, true)
 		default:
-			term, d, nobs = gatedDelete(t, rng, batch)
+			sc := randScenario(rng)
+			term, d, nobs = runRace(t, rng, sc)
+			batch = sc.batch
+			w.Count("race-scenario", sc.name)
+			w.Count("race-flavour", fmt.Sprint(sc.ctxf))
+		}
+		if !strings.HasPrefix(term, "D17 ") {
+			term = "X17 (" + term + ")"
 		}
 		w.Add(term, d, fmt.Sprint(d), nobs >= 3)
 		w.Count("mode", fmt.Sprint(d["mode"]))
